@@ -14,16 +14,16 @@ CHECKS = {
             'E1: all histories of World operations x enable/disable over handler/non-handler (some falsy) component classes and 2 ids, postponed queue bounded, explored to fixpoint; ledger, is_handler and a probe event checked after every transition / in every state. E2: <= 3 lifecycle ops while disabled x raise / re-disable-and-attach at every delivery position of the release. E1 (order-preserving key): handlers whose on_remove / on_add disable dispatching; listener probe issued from inside lifecycle callbacks; the instance an entity already owns given again; E3: a component that attaches itself to another entity from its own on_remove',
             'CPython semantics; harness keeps components alive; clear() while disabled excluded (documented conflict)', '3/C02'),
     'C05': ('explicit-state BFS of the real World to fixpoint: deferred deletion x every other operation x process, two-policy table model',
-            'E1: deferred deletion mixed with every other World op on the same/other entity, deletion from inside a frame, deferred delete of a never-existing id, any number of process() calls, explored to fixpoint Further parts: handler whose on_remove deletes its own entity / re-creates another one, order-preserving single-entity part, identifiers of not mutually orderable types, an on_remove callback that raises once (later frames must not keep failing).',
+            'E1: deferred deletion mixed with every other World op on the same/other entity, deletion from inside a frame, deferred delete of a never-existing id, any number of process() calls, explored to fixpoint Further parts: handler whose on_remove deletes its own entity / re-creates another one, order-preserving single-entity part, identifiers of not mutually orderable types, an on_remove callback that raises once (later frames must not keep failing), an on_remove that deletes the other entity at once.',
             'CPython semantics; table model; admissible policies listed in DESIGN 3/C05', '3/C05'),
     'C06': ('bounded-exhaustive enumeration of every class DAG (all base orderings) x every component assignment x every query type on the real World',
             'E3: every class hierarchy Python accepts with <= 5 classes under every ordering of bases (6 classes in most-derived-first order, thorough), every subset of component / processor types on the entity, every query type, all six query methods; oracle issubclass; every class is a handler querying from on_remove while its entity is deleted; an ABC with a registered (virtual) subclass: queries must agree; processors added bases-first and subclasses-first',
             'CPython semantics (type.__subclasses__, MRO); fresh root classes per hierarchy', '3/C06'),
     'C07': ('explicit-state BFS of the real World processor list to fixpoint against a stable-sort list model; exhaustive list/probe/window enumeration for desper.bisect vs the standard library',
-            'E1: all add_processor/remove_processor/process histories over 4 processor classes x priorities {None,-1,0,1,5} to fixpoint (fresh and re-added instances); E3: all sorted lists of length <= 6 over 4 values x all probes x all lo/hi windows, keyed and unkeyed Further: dispatch toggles (postponed processor callbacks), a processor removing itself inside its frame, mapped callback names with decoys, falsy processors, a handler processor whose on_remove raises (processors / get_processor / process must still agree).',
+            'E1: all add_processor/remove_processor/process histories over 4 processor classes x priorities {None,-1,0,1,5} to fixpoint (fresh and re-added instances); E3: all sorted lists of length <= 6 over 4 values x all probes x all lo/hi windows, keyed and unkeyed Further: dispatch toggles (postponed processor callbacks), a processor removing itself inside its frame, mapped callback names with decoys, falsy processors, a handler processor whose on_remove raises (processors / get_processor / process must still agree), callbacks that read the world, value-equal processors.',
             'CPython semantics; standard library bisect as reference', '3/C07'),
     'C03': ('explicit-state BFS of a real EventDispatcher to fixpoint over every configuration of scripted re-entrant callbacks x every listener iteration order; exhaustive enumeration of decorator programs',
-            'E1: add/remove/dispatch histories to fixpoint for every assignment of re-entrant actions (remove self/other, add, nested dispatch) to 3 handlers x all 3! listener orders x 4 event names x 6 argument shapes, delivery multiset judged per dispatch frame; E3: every event_handler decorator program on forests of <= 4 classes Further: handlers dying in the middle of a dispatch, an enabled dispatcher that still holds a backlog, falsy handlers, clear() followed by new registrations.',
+            'E1: add/remove/dispatch histories to fixpoint for every assignment of re-entrant actions (remove self/other, add, nested dispatch) to 3 handlers x all 3! listener orders x 4 event names x 6 argument shapes, delivery multiset judged per dispatch frame; E3: every event_handler decorator program on forests of <= 4 classes Further: handlers dying in the middle of a dispatch, an enabled dispatcher that still holds a backlog, falsy handlers, clear() followed by new registrations, one decorator object applied to several classes.',
             'CPython semantics; listener order owned through __hash__ of harness handlers (calibrated per process)', '3/C03'),
     'C04': ('explicit-state BFS of a real EventDispatcher to fixpoint with a raise / disable / disable-then-dispatch / nested-release fault injected at every delivery position of every release (deviation-bounded), global exactly-once-in-order ledger, deterministic step budget for termination; exhaustive SimpleLoop.switch sequences',
             'E1+E2: all interleavings of dispatch / enable / disable / add / remove listener (queue <= 5 with one fault, queue <= 2 with two faults, every single nested release), explored to fixpoint or a reported cap; termination decided by a line budget on desper frames; isolation probe (dispatchers hold their own events); every sequence of <= 4 direct loop.switch(handle, clear_current, clear_next) calls over worlds that load disabled with queued events; E3: a callback of the release removes / adds / swaps listeners (every queue <= 5, position, action); E1: the World as dispatcher with lifecycle callbacks that close the gate',
@@ -35,7 +35,7 @@ CHECKS = {
             'E1: <= 3 coroutines with every yield script of length <= 3 over {None,0,-1,0.5,1,2} (plus in-body spawns), every start point, every dt sequence over {0,0.5,1,2} until quiescence; parts with three overlapping waits, sleepers killed / restarted from outside and from inside bodies; set of bodies advanced per frame, relative order of runnable coroutines, early / late wake-ups; E3: every assignment of waits to <= 6 sleepers (permutations of 7), started together or one per frame',
             'CPython semantics; dyadic values keep float arithmetic exact', '3/C08'),
     'C09': ('explicit-state BFS of a real CoroutineProcessor to fixpoint over start/kill/restart/process issued from outside and from inside bodies, lifecycle state machine model, generic reachability for release',
-            'E1: fixed sets of scripted generators (runnable, waiting, finishing, killing themselves / others, starting others), every interleaving of start / kill / process / bad-argument calls to fixpoint; state(), promise value and reachability from the processor checked after every transition Further sets: kill-start-self-return, kill-other, three waiters; hand-over of a killed coroutine between two processors (isolation), non-positive waits, the wait-orders family of C08.',
+            'E1: fixed sets of scripted generators (runnable, waiting, finishing, killing themselves / others, starting others), every interleaving of start / kill / process / bad-argument calls to fixpoint; state(), promise value and reachability from the processor checked after every transition Further sets: kill-start-self-return, kill-other, three waiters; hand-over of a killed coroutine between two processors (isolation), non-positive waits, a body that starts another coroutine and sleeps or returns in the same step, the wait-orders family of C08.',
             'CPython semantics; restart of an already returned generator from inside bodies left out (unobservable order)', '3/C09'),
     'C11': ('explicit-state BFS of a real ResourceMap (fixpoint for keys of depth <= 2, fixpoint / bounded depth for depth 3) against a nested-dict model with layers',
             'E1: all histories of m[key]=value over the 14 keys of depth <= 3 x {handle, empty map, pre-populated map, pre-layered map}, clear() on root / sub-map, added handle layers; all 14 keys looked up through three access styles and all back-links checked in every state Further parts: empty path components, re-assignment of an overwritten object, one handle stored at two places, falsy and value-equal handles, an overwritten map stored again elsewhere, ResourceMap.split_char changed between operations.',
